@@ -232,6 +232,26 @@ def check_matrix(case, ctx):
             ctx.violation('one-hot-gives-1', f'{K}/get_line_confidence/one-hot', f'rows {rows}, labels {labels}: {conf}', sub)
         if onehot and col == labels:
             ctx.tag('one-hot-line')
+            if len(labels) >= 2 and len(set(zip(labels, labels[1:])) & {(0, 0), (1, 1)}) == 0:
+                # the call the ALTO export makes: a padded line, the log-probs cropped to the frame window, which here holds exactly one
+                # frame per character
+                from scipy import sparse
+                from pero_ocr.core.layout import TextLine
+                Mx = np.full((len(labels) + 4, 3), -20.0)
+                Mx[:, 2] = 20.0
+                for k, l in enumerate(labels):
+                    Mx[2 + k] = [-20.0, -20.0, -20.0]
+                    Mx[2 + k, l] = 20.0
+                pl = TextLine(id='p', logits=sparse.csc_matrix(Mx), characters=['a', 'b', '​'], logit_coords=[2, 2 + len(labels)])
+                crop_lp = pl.get_full_logprobs()[2:2 + len(labels)]
+                al = align_text(-crop_lp, lab, 2)
+                cw = np.asarray(get_line_confidence(pl, lab, al, crop_lp), dtype=float)
+                ctx.executed(2)
+                if cw.shape != (len(labels),) or np.abs(cw - 1).max() > TOL:
+                    ctx.violation('one-hot-gives-1', f'{K}/get_line_confidence/one-hot-cropped-window',
+                                  f'padded one-hot line for labels {labels}, log-probs cropped to its frame window [2,{2 + len(labels)}]: {cw}', sub)
+                    return
+                ctx.tag('cropped-window-call')
         if T > len(labels):
             ctx.nontrivial((tuple(rows), tuple(labels)), 'aligned-ctc-line')
             ali = force_align(-logp, labels, 2)
@@ -361,6 +381,6 @@ def describe(tier):
         'assumptions': ['tolerance 1e-9 on shift invariance and normalisation', 'alignment is computed once and reused for the shifted copy, '
                         'so that round-off cannot flip a tie in the alignment'],
         'min_nontrivial': 100,
-        'required_tags': ['lines-with-more-than-1000-frames', 'logits-reassigned-on-a-live-line', 'aligned-ctc-line', 'one-hot-line', 'one-frame-per-label-line', 'threshold-grid-splits',
+        'required_tags': ['cropped-window-call', 'lines-with-more-than-1000-frames', 'logits-reassigned-on-a-live-line', 'aligned-ctc-line', 'one-hot-line', 'one-frame-per-label-line', 'threshold-grid-splits',
                           'bag-weight-changed-between-queries'],
     }
